@@ -304,7 +304,7 @@ void OPN2::noteOn(size_t c, double tone)
     double hertz = s_commonFreq(tone);
 
 #ifdef OPNMIDI_VERIF
-    if(m_verifNoteTap && (hertz < 0 || hertz > 131071)) m_verifNoteTap(m_verifTapData, c, tone, -1.0);
+    if(m_verifNoteTap && hertz < 0) m_verifNoteTap(m_verifTapData, c, tone, -1.0);
 #endif
     if(hertz < 0) // Avoid infinite loop
         return;
